@@ -31,6 +31,56 @@ if "pkbar" not in sys.modules:
     sys.modules["pkbar"] = _pk
 _PATHS = [0]
 atexit.register(lambda: sys.stderr.write("PATHCOUNT %d\\n" % _PATHS[0]))
+
+# ---- observation of the library's state through its public API (private names are used only while they exist)
+_LEFT = []          # contexts entered by an iteration that was aborted before it could leave them
+_MISSING = object()
+
+
+def _reset_modes():
+    while _LEFT:
+        try:
+            _LEFT.pop().__exit__(None, None, None)
+        except Exception:
+            pass
+    import synapgrad
+    tm = sys.modules["synapgrad.tensor"]
+    if hasattr(tm, "gradient__"):
+        tm.gradient__ = True
+    if hasattr(tm, "retain_grads__"):
+        tm.retain_grads__ = False
+
+
+def _g(t):
+    """the gradient array a tensor holds, or None"""
+    g = getattr(t, "_grad", _MISSING)
+    if g is not _MISSING:
+        return g
+    import io, contextlib
+    with contextlib.redirect_stdout(io.StringIO()):
+        gt = t.grad
+    return None if gt is None else gt.data
+
+
+def _mode():
+    """(gradient mode, retain mode or None when it cannot be observed) - by behaviour: a fresh product requires grad iff
+    gradient mode is on; an intermediate result keeps its gradient after backward iff retain mode is on"""
+    import numpy as np
+    import synapgrad
+    from crosshair.tracers import NoTracing
+    with NoTracing():
+        x = synapgrad.Tensor(np.ones((1,), dtype=np.float32), requires_grad=True)
+        y = x * 2.0
+        if not y.requires_grad:
+            return (False, None)
+        z = y * 3.0
+        z.backward(synapgrad.Tensor(np.ones((1,), dtype=np.float32)))
+        return (True, _g(y) is not None)
+
+
+def _mode_is(want):
+    g, r = _mode()
+    return g == want[0] and (r is None or r == want[1])
 '''
 
 
@@ -95,21 +145,33 @@ def run_one(path, func, timeout, twin=False):
 
 
 def replay_call(path, call):
-    """run `func(args)` from the harness module in a plain interpreter -> (violates, detail)"""
-    code = ("import importlib.util, sys\n"
+    """run `func(args)` from the harness module in a plain interpreter -> (violates, detail).  An exception counts only if
+    it was raised by the code under test: one raised by the harness module itself (e.g. it reaches for a private name the
+    tree no longer has) is a harness error -> (None, detail), which the caller reports as inconclusive."""
+    code = ("import importlib.util, sys, os\n"
             "spec = importlib.util.spec_from_file_location('h', %r)\n"
             "m = importlib.util.module_from_spec(spec); spec.loader.exec_module(m)\n"
             "try:\n"
             "    r = eval('m.' + %r)\n"
             "    print('RESULT', repr(r))\n"
             "except Exception as e:\n"
-            "    print('RAISED', type(e).__name__, e)\n") % (path, call)
+            "    repo = os.path.realpath(os.environ.get('VERIF_REPO', '/repo')) + os.sep\n"
+            "    tb, where = e.__traceback__, 'harness'\n"
+            "    frames = []\n"
+            "    while tb is not None:\n"
+            "        frames.append(os.path.realpath(tb.tb_frame.f_code.co_filename)); tb = tb.tb_next\n"
+            "    for fn in reversed(frames):\n"
+            "        if fn.startswith(repo): where = 'repo'; break\n"
+            "        if fn == os.path.realpath(%r): where = 'harness'; break\n"
+            "    print('RAISED', where, type(e).__name__, e)\n") % (path, call, path)
     p = subprocess.run([sys.executable, "-W", "ignore", "-c", code], capture_output=True, text=True, timeout=120)
     out = p.stdout.strip().splitlines()
     last = out[-1] if out else p.stderr.strip()[-200:]
     if last.startswith("RESULT"):
         val = last[len("RESULT "):]
         return (val != "True"), "plain interpreter: %s returns %s" % (call, val)
+    if last.startswith("RAISED harness"):
+        return None, "harness error in the plain interpreter: %s -> %s" % (call, last[len("RAISED harness "):])
     return True, "plain interpreter: %s -> %s" % (call, last)
 
 
